@@ -15,7 +15,9 @@ RULE = ("P1: for every strictly increasing integer knot vector with 2..N knots o
         "subtraction rounds), targets and knots of -0.0 behave as 0, unsorted abscissae (also on an axis scaled by "
         "2^-70, and when only one ulp out of order) and mismatched lengths (fewer ordinates; one, two or n surplus "
         "ordinates or abscissae) must be rejected; the fill mode returns the fill value of the side concerned bit for "
-        "bit also when the values are -inf, +inf, NaN or zeros of either sign. Case class = (family, mode, position of "
+        "bit also when the values are -inf, +inf, NaN or zeros of either sign; every third case: the two buffers are "
+        "edited in place between calls (ordinates reflected and shifted, then the axis doubled; same addresses and "
+        "lengths) and each answer equals, bit for bit, the answer on fresh copies of the current contents. Case class = (family, mode, position of "
         "the target: left-oob/first-knot/inside/inner-knot/last-knot/right-oob).")
 ASSUMPTIONS = ["rational knots/ordinates/targets (exact in f64); equal neighbouring abscissae are outside the property's domain",
                "no P3: the function is stateless and the exhaustive case analysis already covers every branch; random traces would add nothing the spec does not enumerate"]
